@@ -679,4 +679,367 @@ Section Renaming.
       rewrite map_map, E1. apply (iso_backward (lookup T ro) (lookup T (ren_st ro)) (iso_lookup ro)).
     Qed.
   End Solver.
+
+  (* ==================================================================== PART 4 : the four domains *)
+  Ltac fold_shift :=
+    repeat match goal with
+           | |- context [SKnown ?o (g ?p) (map (shift_sval g) ?a) ?x] =>
+               change (SKnown o (g p) (map (shift_sval g) a) x) with (shift_sval g (SKnown o p a x))
+           end.
+
+  Lemma iso_get_index intcs v : get_index intcs (shift_sval g v) = get_index intcs v.
+  Proof.
+    destruct v as [|op pos args out]; [reflexivity|].
+    destruct args as [|a1 [|a2 [|a3 rest]]]; try reflexivity.
+    destruct a1 as [|o1 p1 r1 x1]; destruct a2 as [|o2 p2 r2 x2]; reflexivity.
+  Qed.
+
+  Lemma iso_get_index_and_field intcs v :
+    get_index_and_field intcs (shift_sval g v) = get_index_and_field intcs v.
+  Proof.
+    destruct v as [|op pos args out]; [reflexivity|]. cbn [shift_sval].
+    destruct op; try reflexivity.
+    destruct args as [|a rest]; [reflexivity|]. cbn [map get_index_and_field]. rewrite iso_get_index. reflexivity.
+  Qed.
+
+  Lemma iso_value_matches intcs fam fld v :
+    value_matches intcs fam fld (shift_sval g v) = value_matches intcs fam fld v.
+  Proof. unfold value_matches. rewrite iso_get_index_and_field. reflexivity. Qed.
+
+  Lemma iso_int_single size intcs op pos args :
+    int_single size intcs op (g pos) (map (shift_sval g) args) = int_single size intcs op pos args.
+  Proof.
+    unfold int_single.
+    destruct args as [|[|o1 p1 a1 x1] [|[|o2 p2 a2 x2] [|a3 rest]]]; reflexivity.
+  Qed.
+
+  Lemma iso_type_single intcs fam op pos args :
+    type_single intcs fam op (g pos) (map (shift_sval g) args) = type_single intcs fam op pos args.
+  Proof.
+    unfold type_single. cbv zeta. fold_shift. rewrite iso_value_matches.
+    destruct (value_matches intcs fam "ApplicationID" (SKnown op pos args 0)); [reflexivity|].
+    destruct op; try reflexivity;
+      destruct args as [|[|o1 p1 a1 x1] [|[|o2 p2 a2 x2] [|a3 rest]]]; try reflexivity;
+      cbn [map shift_sval]; fold_shift; rewrite !iso_value_matches; reflexivity.
+  Qed.
+
+  Lemma iso_addr_single intcs fam fld op pos args :
+    addr_single intcs fam fld op (g pos) (map (shift_sval g) args) = addr_single intcs fam fld op pos args.
+  Proof.
+    unfold addr_single. cbv zeta.
+    destruct op; try reflexivity;
+      destruct args as [|[|o1 p1 a1 x1] [|[|o2 p2 a2 x2] [|a3 rest]]]; try reflexivity;
+      cbn [map shift_sval]; fold_shift; rewrite ?iso_value_matches; reflexivity.
+  Qed.
+
+  Lemma iso_fee_single intcs fam op pos args :
+    fee_single intcs fam op (g pos) (map (shift_sval g) args) = fee_single intcs fam op pos args.
+  Proof.
+    unfold fee_single. cbv zeta.
+    destruct (cmp_of op); try reflexivity;
+      destruct args as [|[|o1 p1 a1 x1] [|[|o2 p2 a2 x2] [|a3 rest]]]; try reflexivity;
+      cbn [map shift_sval]; fold_shift; rewrite ?iso_value_matches; reflexivity.
+  Qed.
+
+  Lemma iso_ren_st_pair {T} (F F' : nat * T -> nat * T) (l : list (nat * T)) :
+    (forall kv, F' (r (fst kv), snd kv) = (r (fst (F kv)), snd (F kv))) ->
+    map F' (ren_st l) = ren_st (map F l).
+  Proof. intros H. unfold ren_st. rewrite !map_map. apply map_ext. intros kv. apply H. Qed.
+
+  Section RunAll.
+    Variables f f' : func.
+    Hypothesis ISO : fiso f f'.
+    Variable fuel : nat.
+
+    Lemma iso_run_int size : run_int f' fuel size = omap ren_st (run_int f fuel size).
+    Proof.
+      unfold run_int. cbv zeta. rewrite (iso_intcs f f' ISO).
+      rewrite (iso_init_constraints (list Z) _ _ zunion zinter (int_single size (fn_intcs f))
+                 (iso_int_single size (fn_intcs f)) f f' ISO).
+      destruct (init_constraints (list Z) _ _ zunion zinter (int_single size (fn_intcs f)) f) as [bc|];
+        [|reflexivity].
+      cbn [option_map].
+      apply (iso_solve (list Z) zset_eqb _ _ zunion zinter (int_single size (fn_intcs f))
+               (iso_int_single size (fn_intcs f)) f f' ISO).
+    Qed.
+
+    Lemma iso_run_family {T} (t_eqb : T -> T -> bool) (univ null : T) (union inter : T -> T -> T)
+          (single : keyfam -> instr -> nat -> list sval -> T * T)
+          (Hs : forall fam op pos args, single fam op (g pos) (map (shift_sval g) args) = single fam op pos args)
+          (indices : list (nat * list Z)) :
+      run_family f' fuel t_eqb univ null union inter single (ren_st indices) =
+      omap ren_fam (run_family f fuel t_eqb univ null union inter single indices).
+    Proof.
+      unfold run_family.
+      rewrite (iso_init_constraints T univ null union inter (single KSelf) (Hs KSelf) f f' ISO).
+      destruct (init_constraints T univ null union inter (single KSelf) f) as [bc0|]; [|reflexivity].
+      cbn [option_map].
+      rewrite (iso_solve T t_eqb univ null union inter (single KSelf) (Hs KSelf) f f' ISO).
+      destruct (solve T t_eqb univ null union inter (single KSelf) f fuel bc0) as [base| |];
+        cbn [omap]; try reflexivity.
+      match goal with
+      | |- match seq_outcomes _ ?G' with _ => _ end = omap _ (match seq_outcomes _ ?G with _ => _ end) =>
+          rewrite (iso_seq_outcomes_map (fun kv : keyfam * list (nat * T) => (fst kv, ren_st (snd kv)))
+                     all_gtx_fams G G')
+      end.
+      - destruct (seq_outcomes all_gtx_fams _) as [rest| |]; reflexivity.
+      - intros fam.
+        rewrite (iso_init_constraints T univ null union inter (single fam) (Hs fam) f f' ISO).
+        destruct (init_constraints T univ null union inter (single fam) f) as [bc|]; [|reflexivity].
+        cbn [option_map].
+        assert (Ebc : match fam with
+                      | KAtIndex i =>
+                          map (fun '(b, c) =>
+                                 let gi := match lookup _ (ren_st indices) b with Some l => l | None => [] end in
+                                 if zmem (Z.of_N i) gi
+                                 then (b, inter c (match lookup _ (ren_st base) b with Some v => v | None => null end))
+                                 else (b, null)) (ren_st bc)
+                      | _ => ren_st bc
+                      end =
+                      ren_st (match fam with
+                              | KAtIndex i =>
+                                  map (fun '(b, c) =>
+                                         let gi := match lookup _ indices b with Some l => l | None => [] end in
+                                         if zmem (Z.of_N i) gi
+                                         then (b, inter c (match lookup _ base b with Some v => v | None => null end))
+                                         else (b, null)) bc
+                              | _ => bc
+                              end)).
+        { destruct fam; try reflexivity. apply iso_ren_st_pair. intros [b c]. cbn [fst snd].
+          rewrite (iso_lookup (list Z) f f' ISO), (iso_lookup T f f' ISO).
+          destruct (zmem _ _); reflexivity. }
+        cbv zeta in Ebc. rewrite Ebc.
+        rewrite (iso_solve T t_eqb univ null union inter (single fam) (Hs fam) f f' ISO).
+        destruct (solve T t_eqb univ null union inter (single fam) f fuel _) as [res| |]; reflexivity.
+    Qed.
+
+    Lemma iso_run_all : run_all f' fuel = omap ren_result (run_all f fuel).
+    Proof.
+      unfold run_all. cbv zeta. rewrite !iso_run_int, (iso_intcs f f' ISO).
+      destruct (run_int f fuel true) as [sizes| |]; destruct (run_int f fuel false) as [idx0| |];
+        cbn [omap]; try reflexivity.
+      assert (Ei : map (fun '(b, gi) =>
+                          (b, filter (fun i => Z.ltb i (zmax_default
+                                 (match lookup _ (ren_st sizes) b with Some l => l | None => [] end))) gi))
+                       (ren_st idx0) =
+                   ren_st (map (fun '(b, gi) =>
+                                  (b, filter (fun i => Z.ltb i (zmax_default
+                                         (match lookup _ sizes b with Some l => l | None => [] end))) gi)) idx0)).
+      { apply iso_ren_st_pair. intros [b gi]. cbn [fst snd].
+        rewrite (iso_lookup (list Z) f f' ISO). reflexivity. }
+      rewrite Ei. clear Ei.
+      set (indices := map (fun '(b, gi) =>
+                             (b, filter (fun i => Z.ltb i (zmax_default
+                                    (match lookup _ sizes b with Some l => l | None => [] end))) gi)) idx0).
+      match goal with
+      | |- match seq_outcomes _ ?G' with _ => _ end = omap _ (match seq_outcomes _ ?G with _ => _ end) =>
+          rewrite (iso_seq_outcomes_map (@ren_fam (string * keyfam) sset) addr_fields_list G G')
+      end.
+      2:{ intros fld.
+          rewrite (iso_run_family sset_seteqb addr_universal_set addr_null_set addr_union addr_intersection
+                     (fun fam => addr_single (fn_intcs f) fam fld)
+                     (fun fam => iso_addr_single (fn_intcs f) fam fld) indices).
+          destruct (run_family f fuel sset_seteqb _ _ _ _ _ indices) as [rr| |]; cbn [omap]; try reflexivity.
+          f_equal. unfold ren_fam. rewrite !map_map. apply map_ext. intros [fam v]. reflexivity. }
+      destruct (seq_outcomes addr_fields_list _) as [addrs| |]; cbn [omap]; try reflexivity.
+      rewrite (iso_run_family feeval_eqb fee_universal_set fee_null_set fee_union fee_intersection
+                 (fun fam => fee_single (fn_intcs f) fam)
+                 (fun fam => iso_fee_single (fn_intcs f) fam) indices).
+      destruct (run_family f fuel feeval_eqb _ _ _ _ _ indices) as [fees| |]; cbn [omap]; try reflexivity.
+      rewrite (iso_run_family lset_eqb ALL_TRANSACTION_TYPES [] lunion linter
+                 (fun fam => type_single (fn_intcs f) fam)
+                 (fun fam => iso_type_single (fn_intcs f) fam) indices).
+      destruct (run_family f fuel lset_eqb _ _ _ _ _ indices) as [types| |]; cbn [omap]; try reflexivity.
+      unfold ren_result. cbn [r_sizes r_indices r_types r_addrs r_fees]. f_equal. f_equal.
+      unfold ren_fam at 2. rewrite concat_map. reflexivity.
+    Qed.
+  End RunAll.
+
+  (* ==================================================================== PART 5 : contexts, search, detectors *)
+  Lemma iso_forallb_ext {A} (p q : A -> bool) l : (forall x, p x = q x) -> forallb p l = forallb q l.
+  Proof. intros H. induction l as [|x l IH]; [reflexivity|]. cbn [forallb]. rewrite H, IH. reflexivity. Qed.
+
+  Lemma iso_but_last_l {A B} (h : A -> B) l : but_last_l (map h l) = map h (but_last_l l).
+  Proof.
+    induction l as [|x l IH]; [reflexivity|]. destruct l as [|y l]; [reflexivity|].
+    cbn [map but_last_l] in *. rewrite IH. reflexivity.
+  Qed.
+
+  Definition ren_frame (fr : option nat * string) : option nat * string := (option_map r (fst fr), snd fr).
+  Definition ren_stack (st : list (option nat * string)) : list (option nat * string) := map ren_frame st.
+
+  Lemma iso_last_stack st : List.last (ren_stack st) (None, "") = ren_frame (List.last st (None, "")).
+  Proof. unfold ren_stack. exact (iso_last_map ren_frame st (None, "")). Qed.
+  Lemma iso_but_last_stack st : but_last_l (ren_stack st) = ren_stack (but_last_l st).
+  Proof. unfold ren_stack. apply iso_but_last_l. Qed.
+  Lemma iso_existsb_stack l st :
+    existsb (fun '(_, s) => s =? l) (ren_stack st) = existsb (fun '(_, s) => s =? l) st.
+  Proof. unfold ren_stack. apply iso_existsb_map. intros [o s] _. reflexivity. Qed.
+
+  Lemma iso_last_nil (l : list (list nat)) : List.last (map (map r) l) [] = map r (List.last l []).
+  Proof. exact (iso_last_map (map r) l []). Qed.
+
+  Section Detect.
+    Variables f f' : func.
+    Hypothesis ISO : fiso f f'.
+
+    Lemma iso_res_addr res fld fam b : res_addr (ren_result res) fld fam (r b) = res_addr res fld fam b.
+    Proof.
+      unfold res_addr, ren_result. cbn [r_addrs]. unfold ren_fam.
+      match goal with |- context [find ?P (map ?h ?l)] => rewrite (iso_find_map h P P l) end.
+      2:{ intros [[fl fm] st] _. reflexivity. }
+      destruct (find _ (r_addrs res)) as [[[fl fm] st]|]; [|reflexivity].
+      cbn [option_map fst snd]. rewrite (iso_lookup sset f f' ISO). reflexivity.
+    Qed.
+
+    Lemma iso_res_fee res fam b : res_fee (ren_result res) fam (r b) = res_fee res fam b.
+    Proof.
+      unfold res_fee, ren_result. cbn [r_fees]. unfold ren_fam.
+      match goal with |- context [find ?P (map ?h ?l)] => rewrite (iso_find_map h P P l) end.
+      2:{ intros [fm st] _. reflexivity. }
+      destruct (find _ (r_fees res)) as [[fm st]|]; [|reflexivity].
+      cbn [option_map fst snd]. rewrite (iso_lookup feeval f f' ISO). reflexivity.
+    Qed.
+
+    Lemma iso_res_types res fam b : res_types (ren_result res) fam (r b) = res_types res fam b.
+    Proof.
+      unfold res_types, ren_result. cbn [r_types]. unfold ren_fam.
+      match goal with |- context [find ?P (map ?h ?l)] => rewrite (iso_find_map h P P l) end.
+      2:{ intros [fm st] _. reflexivity. }
+      destruct (find _ (r_types res)) as [[fm st]|]; [|reflexivity].
+      cbn [option_map fst snd]. rewrite (iso_lookup (list string) f f' ISO). reflexivity.
+    Qed.
+
+    Lemma iso_ctx_of res b fam : ctx_of (ren_result res) (r b) fam = ctx_of res b fam.
+    Proof.
+      unfold ctx_of. rewrite !iso_res_addr, iso_res_fee, iso_res_types.
+      cbn [ren_result r_sizes r_indices]. rewrite !(iso_lookup (list Z) f f' ISO). reflexivity.
+    Qed.
+
+    Lemma iso_validated_in_block res checks ai b :
+      validated_in_block (ren_result res) checks ai (r b) = validated_in_block res checks ai b.
+    Proof.
+      unfold validated_in_block. rewrite !iso_ctx_of.
+      destruct (checks (ctx_of res b KSelf)); [reflexivity|].
+      destruct ai as [i|]; [rewrite iso_ctx_of; reflexivity|].
+      apply iso_forallb_ext. intros i. rewrite iso_ctx_of. reflexivity.
+    Qed.
+
+    Section Search.
+      Variables validated validated' : nat -> bool.
+      Variables report report' : list nat -> bool.
+      Hypothesis Hval : forall n, validated' (r n) = validated n.
+      Hypothesis Hrep : forall p, report' (map r p) = report p.
+
+      Lemma iso_search : forall fuel bb path stack executed,
+        search f' validated' report' fuel (r bb) (map r path) (ren_stack stack) (map (map r) executed) =
+        omap ren_paths (search f validated report fuel bb path stack executed).
+      Proof.
+        induction fuel as [|fu IH]; intros bb path stack executed; [reflexivity|].
+        cbn [search].
+        rewrite iso_last_nil, (iso_nat_mem f f' ISO).
+        destruct (nat_mem bb (List.last executed [])); [reflexivity|].
+        rewrite Hval. destruct (validated bb); [reflexivity|].
+        rewrite (iso_fblock f f' ISO). destruct (fblock f bb) as [b|] eqn:Eb; [|reflexivity].
+        cbn [option_map].
+        assert (Hb : In b (fn_blocks f)) by (eapply fblock_In; exact Eb).
+        rewrite (iso_leaf_global f f' ISO b Hb).
+        assert (Ep : map r path ++ [r bb] = map r (path ++ [bb])) by (rewrite map_app; reflexivity).
+        rewrite Ep.
+        destruct (leaf_global f b).
+        { rewrite Hrep. destruct (report (path ++ [bb])); reflexivity. }
+        assert (Ee : but_last_l (map (map r) executed) ++ [map r (List.last executed []) ++ [r bb]] =
+                     map (map r) (but_last_l executed ++ [List.last executed [] ++ [bb]])).
+        { rewrite map_app, iso_but_last_l. cbn [map]. rewrite map_app. reflexivity. }
+        rewrite Ee. set (executed1 := but_last_l executed ++ [List.last executed [] ++ [bb]]).
+        set (path1 := path ++ [bb]).
+        rewrite (iso_fexit_op f f' ISO b Hb).
+        assert (Hdef :
+          match next_global f' (ren_block b) with
+          | None => Exn "KeyError: next_blocks_global"
+          | Some nx =>
+              fold_left (fun acc nb =>
+                           match acc with
+                           | Done ps => match search f' validated' report' fu nb (map r path1) (ren_stack stack)
+                                                     (map (map r) executed1) with
+                                        | Done qs => Done (ps ++ qs) | Exn e => Exn e | OutOfFuel => OutOfFuel end
+                           | x => x
+                           end) nx (Done [])
+          end =
+          omap ren_paths
+            match next_global f b with
+            | None => Exn "KeyError: next_blocks_global"
+            | Some nx =>
+                fold_left (fun acc nb =>
+                             match acc with
+                             | Done ps => match search f validated report fu nb path1 stack executed1 with
+                                          | Done qs => Done (ps ++ qs) | Exn e => Exn e | OutOfFuel => OutOfFuel end
+                             | x => x
+                             end) nx (Done [])
+            end).
+        { rewrite (iso_next_global f f' ISO b Hb).
+          destruct (next_global f b) as [nx|]; [|reflexivity]. cbn [option_map].
+          assert (Hf : forall nx0 acc,
+            fold_left (fun acc nb =>
+                         match acc with
+                         | Done ps => match search f' validated' report' fu nb (map r path1) (ren_stack stack)
+                                                   (map (map r) executed1) with
+                                      | Done qs => Done (ps ++ qs) | Exn e => Exn e | OutOfFuel => OutOfFuel end
+                         | x => x
+                         end) (map r nx0) (omap ren_paths acc) =
+            omap ren_paths
+              (fold_left (fun acc nb =>
+                            match acc with
+                            | Done ps => match search f validated report fu nb path1 stack executed1 with
+                                         | Done qs => Done (ps ++ qs) | Exn e => Exn e | OutOfFuel => OutOfFuel end
+                            | x => x
+                            end) nx0 acc)).
+          { induction nx0 as [|a nx0 IHn]; intros acc; [reflexivity|].
+            cbn [map fold_left]. rewrite <- IHn. f_equal.
+            destruct acc as [ps| |]; cbn [omap]; try reflexivity.
+            rewrite IH. destruct (search f validated report fu a path1 stack executed1) as [qs| |];
+              cbn [omap]; try reflexivity.
+            unfold ren_paths. rewrite map_app. reflexivity. }
+          exact (Hf nx (Done [])). }
+        destruct (fexit_op f b) as [[]|]; try exact Hdef.
+        - (* callsub *)
+          rewrite iso_existsb_stack. destruct (existsb _ stack); [reflexivity|].
+          rewrite (iso_find_sub f f' ISO). destruct (f_find_sub f l) as [s|]; [|reflexivity].
+          cbn [option_map ren_sub s_entry].
+          assert (Es : ren_stack stack ++ [(Some (r bb), l)] = ren_stack (stack ++ [(Some bb, l)]))
+            by (unfold ren_stack; rewrite map_app; reflexivity).
+          assert (Ex : map (map r) executed1 ++ [[]] = map (map r) (executed1 ++ [[]]))
+            by (rewrite map_app; reflexivity).
+          rewrite Es, Ex. apply IH.
+        - (* retsub *)
+          rewrite iso_last_stack. destruct (List.last stack (None, "")) as [[cs|] nm]; [|reflexivity].
+          cbn [ren_frame option_map fst snd]. rewrite (iso_fblock f f' ISO).
+          destruct (fblock f cs) as [cb|]; [|reflexivity]. cbn [option_map].
+          rewrite iso_sub_return_point. destruct (sub_return_point cb) as [rp|]; [|reflexivity].
+          cbn [option_map]. rewrite iso_but_last_stack, iso_but_last_l. apply IH.
+      Qed.
+    End Search.
+
+    Lemma iso_accessed n : accessed_using_absolute_index f' (r n) = accessed_using_absolute_index f n.
+    Proof.
+      unfold accessed_using_absolute_index. rewrite (iso_fblock f f' ISO).
+      destruct (fblock f n) as [b|] eqn:Eb; [|reflexivity]. cbn [option_map ren_block b_ins].
+      rewrite (iso_emulate f f' ISO b) by (eapply fblock_In; exact Eb). rewrite (iso_intcs f f' ISO).
+      destruct (emulate (fn_prog f) (b_ins b) []) as [ast|]; [|reflexivity]. cbn [option_map].
+      apply iso_existsb_map. intros [[pos op] args] _. cbn [shift_entry].
+      destruct op; try reflexivity; destruct args as [|[|o p a x] rest]; reflexivity.
+    Qed.
+
+    Lemma iso_run_detector_res res fuel name checks :
+      run_detector f' (ren_result res) fuel name checks = omap ren_paths (run_detector f res fuel name checks).
+    Proof.
+      unfold run_detector, detect_paths. rewrite (iso_entry f f' ISO).
+      destruct (name =? "group-size-check").
+      - exact (iso_search _ _ _ _ (iso_validated_in_block res checks None)
+                 (fun p => iso_existsb_map r _ _ p (fun x _ => iso_accessed x))
+                 fuel (fn_entry f) [] [(None, "")] [[]]).
+      - exact (iso_search _ _ _ _ (iso_validated_in_block res checks None) (fun p => eq_refl)
+                 fuel (fn_entry f) [] [(None, "")] [[]]).
+    Qed.
+  End Detect.
 End Renaming.
